@@ -94,7 +94,7 @@ def run_stages(pid, tier, seed, t0, level, stages, required=(), assumptions=(), 
                 i, a = i_args
                 outp = os.path.join(TMP, f"{pid}-{st['name']}-{i}-{tier}-{seed}.json")
                 return a, vc.run_miri(st["mode"], a, seed, tier, outp, st["timeout"])
-            with ThreadPoolExecutor(max_workers=8) as ex:
+            with ThreadPoolExecutor(max_workers=16) as ex:
                 results = list(ex.map(one, enumerate(st["shards"])))
             for a, (rep, status, err) in results:
                 if status == "miri-ub":
@@ -208,7 +208,7 @@ def c06(pid, tier, seed, t0):
 def c07(pid, tier, seed, t0):
     stages = [H("tables-checked", "c07", "checked"),
               H("tables-opt", "c07", "opt", group="c07-opt"),
-              M("tables-miri", "c07", [["--single-thread", "--sq-lo", str(i), "--sq-hi", str(i + 7)] for i in range(0, 64, 8)])]
+              M("tables-miri", "c07", [["--single-thread", "--variants", "3", "--sq-lo", str(i), "--sq-hi", str(i + 3)] for i in range(0, 64, 4)])]
     rc = run_stages(pid, tier, seed, t0, "exploration", stages,
                     required=("rook_subsets", "bishop_subsets", "between_pairs", "leaper_entries"),
                     assumptions=["oracle = coordinate-arithmetic ray walk written for this check",
@@ -230,13 +230,16 @@ def c10(pid, tier, seed, t0):
 
 
 def c11(pid, tier, seed, t0):
-    stages = [H("draws-checked", "c11", "checked", args=["--scale", "2"])]
+    stages = [H("draws-checked", "c11", "checked", args=["--scale", "2"]),
+              H("draws-in-search", "c11s", "checked", group="c11s")]
     return run_stages(pid, tier, seed, t0, "exploration", stages,
                       required=("repetitions_observed", "repetition_of_oldest_position_in_window",
                                 "clock_ge_100_observed", "terminal_at_clock_ge_100", "fen_start_with_nonzero_clock",
                                 "null_moves_in_history", "bare_kings", "king_and_minor",
                                 "three_men_with_pawn_rook_or_queen", "synth_more_than_two_minors",
-                                "castling_right_lost_inside_history"),
+                                "castling_right_lost_inside_history", "clock_99_all_moves_quiet_roots",
+                                "clock_99_mate_on_the_100th_halfmove", "clock_99_root_with_a_non_mating_check",
+                                "mate_lines_checked_against_the_clock"),
                       assumptions=["position identity = (placement, side, rights, en-passant target field) as read from "
                                    "the engine's observable state, which C02 judges against the rules",
                                    "with null moves in the history only 'engine says repeated => an identical earlier "
@@ -308,10 +311,11 @@ def c04(pid, tier, seed, t0):
 
 
 def c08(pid, tier, seed, t0):
-    stages = [H("lines-checked", "c08", "checked")]
+    stages = [H("lines-checked", "c08", "checked"), P("lines-binary", _pm2("c08_stage"))]
     return run_stages(pid, tier, seed, t0, "exploration", stages,
                       required=SEARCH_FEATURES + ("info_lines", "mate_for_root_side", "mate_against_root_side",
-                                                  "mate_distance_3", "mate_distance_5", "searches_on_used_tables"),
+                                                  "mate_distance_3", "mate_distance_5", "searches_on_used_tables",
+                                                  "binary_info_lines", "binary_mate_announcements"),
                       assumptions=["oracle = refchess replay of every reported line"])
 
 
@@ -319,6 +323,7 @@ def c09(pid, tier, seed, t0):
     stages = [H("stops-checked", "c09", "checked")]
     return run_stages(pid, tier, seed, t0, "fault_enumeration", stages,
                       required=("triples_enumerated", "stop_points_enumerated", "followup_searches",
+                                "fallback_to_first_picked_move", "pos_quiescence_heavy",
                                 "completed_iterations_at_abort_1", "completed_iterations_at_abort_5",
                                 "prior_state_from_another_position", "prior_state_warm_same_position"),
                       assumptions=["exhaustive in k for each sampled (position, depth, prior state); the triples are "
@@ -330,7 +335,7 @@ def c09(pid, tier, seed, t0):
 def c12(pid, tier, seed, t0):
     stages = [H("determinism-checked", "c12", "checked"), P("ucinewgame-binary", _pm2("c12_stage"))]
     return run_stages(pid, tier, seed, t0, "exploration", stages,
-                      required=("reset_then_compare_with_fresh", "second_run_under_load",
+                      required=("binary_ucinewgame_right_after_bestmove_with_delay", "reset_then_compare_with_fresh", "second_run_under_load",
                                 "long_chain_ge_255_generations", "hash_1mb", "hash_64mb"),
                       assumptions=["transcript = best move + depth, seldepth, score, nodes, hashfull, line of every "
                                    "iteration; time and nps excluded"])
@@ -341,7 +346,7 @@ def c14(pid, tier, seed, t0):
               H("limits-opt", "c14", "opt", group="c14-opt"),
               P("timed-release", _pm2("c14_stage"))]
     return run_stages(pid, tier, seed, t0, "exploration", stages,
-                      required=("timed_searches", "timed_searches_at_200ms", "grid_tuples", "random_tuples", "remaining_below_200ms",
+                      required=("timed_searches", "timed_searches_at_200ms", "movetime_with_overhead_cases", "grid_tuples", "random_tuples", "remaining_below_200ms",
                                 "only_one_sides_time_supplied", "moves_to_go_1", "moves_to_go_u32_max",
                                 "overhead_exactly_half", "fixed_movetime_cases"),
                       assumptions=["limits read through hook H2", "bound checked with a tolerance of one f32 ulp of the "
@@ -354,11 +359,16 @@ def c05(pid, tier, seed, t0):
     return run_stages(pid, tier, seed, t0, "exploration", stages,
                       required=("class_stop_while_searching", "class_stop_after_search_finished_on_its_own",
                                 "class_stop_before_any_go", "class_ucinewgame_after_finished_search",
-                                "class_isready_during_search", "class_go_infinite", "class_go_finite",
-                                "delays_go.after_bestmove", "delays_stop.before_wait", "delays_go.before_lock"),
+                                "class_isready_during_search", "class_go_infinite", "class_go_finite", "class_quit_during_search",
+                                "delays_go.after_bestmove", "delays_stop.before_wait", "delays_go.before_lock",
+                                "class_trace_stop_waits_for_live_search", "class_trace_stop_with_stale_latch",
+                                "class_trace_stop_between_bestmove_and_latch_set",
+                                "class_trace_newgame_between_bestmove_and_latch_set"),
                       assumptions=["'eventually' restated as bounded progress: an unanswered command is a violation only "
                                    "with the /proc deadlock signature (every thread asleep in futex, none in read, CPU "
-                                   "frozen); alive-but-slow is inconclusive",
+                                   "frozen), or with the blocked-input-thread signature (the process consumed >= 8 s of its "
+                                   "own CPU time after the command while its input thread slept in futex throughout); "
+                                   "anything else is inconclusive",
                                    "schedules are sampled and forced with H3 delays at preemptible points, not enumerated",
                                    "depth <= 4 and < 250 searches per process keep other properties' defects from "
                                    "masquerading as hangs"])
